@@ -112,11 +112,11 @@ macro_rules! int_harness {
 
 //@H atomic_u64_fetch_max @prop C12 @tier quick @mode fast @cost 3 @timeout 3600 @funcs AtomicU64::new,AtomicU64::fetch_max,AtomicU64::unsync_load,Atomic::rmw,Atomic::try_rmw,rt::Atomic::rmw,Numeric::into_u64,Numeric::from_u64 @bounds one operation after new; every u64 initial value and operand (full width); every valid ordering :: AtomicU64::fetch_max returns what std's returns (including the Ok/Err shape) and leaves std's content, for all operand values including wrap-around and sign/width boundaries
 int_harness!(atomic_u64_fetch_max, AtomicU64, std::sync::atomic::AtomicU64, u64, 2);
-//@H atomic_i8_fetch_add @prop C12 @tier quick @mode fast @cost 3 @timeout 3600 @funcs AtomicI8::new,AtomicI8::fetch_add,AtomicI8::unsync_load,Atomic::rmw,Atomic::try_rmw,rt::Atomic::rmw,Numeric::into_u64,Numeric::from_u64 @bounds one operation after new; every i8 initial value and operand (full width); every valid ordering :: AtomicI8::fetch_add returns what std's returns (including the Ok/Err shape) and leaves std's content, for all operand values including wrap-around and sign/width boundaries
+//@H atomic_i8_fetch_add @prop C12 @tier thorough @mode fast @cost 3 @timeout 3600 @funcs AtomicI8::new,AtomicI8::fetch_add,AtomicI8::unsync_load,Atomic::rmw,Atomic::try_rmw,rt::Atomic::rmw,Numeric::into_u64,Numeric::from_u64 @bounds one operation after new; every i8 initial value and operand (full width); every valid ordering :: AtomicI8::fetch_add returns what std's returns (including the Ok/Err shape) and leaves std's content, for all operand values including wrap-around and sign/width boundaries
 int_harness!(atomic_i8_fetch_add, AtomicI8, std::sync::atomic::AtomicI8, i8, 0);
 //@H atomic_u8_fetch_update @prop C12 @tier quick @mode fast @cost 3 @timeout 3600 @funcs AtomicU8::new,AtomicU8::fetch_update,AtomicU8::unsync_load,Atomic::rmw,Atomic::try_rmw,rt::Atomic::rmw,Numeric::into_u64,Numeric::from_u64 @bounds one operation after new; every u8 initial value and operand (full width); every valid ordering :: AtomicU8::fetch_update returns what std's returns (including the Ok/Err shape) and leaves std's content, for all operand values including wrap-around and sign/width boundaries
 int_harness!(atomic_u8_fetch_update, AtomicU8, std::sync::atomic::AtomicU8, u8, 11);
-//@H atomic_i16_compare_exchange @prop C12 @tier quick @mode fast @cost 3 @timeout 3600 @funcs AtomicI16::new,AtomicI16::compare_exchange,AtomicI16::unsync_load,Atomic::rmw,Atomic::try_rmw,rt::Atomic::rmw,Numeric::into_u64,Numeric::from_u64 @bounds one operation after new; every i16 initial value and operand (full width); every valid ordering :: AtomicI16::compare_exchange returns what std's returns (including the Ok/Err shape) and leaves std's content, for all operand values including wrap-around and sign/width boundaries
+//@H atomic_i16_compare_exchange @prop C12 @tier thorough @mode fast @cost 3 @timeout 3600 @funcs AtomicI16::new,AtomicI16::compare_exchange,AtomicI16::unsync_load,Atomic::rmw,Atomic::try_rmw,rt::Atomic::rmw,Numeric::into_u64,Numeric::from_u64 @bounds one operation after new; every i16 initial value and operand (full width); every valid ordering :: AtomicI16::compare_exchange returns what std's returns (including the Ok/Err shape) and leaves std's content, for all operand values including wrap-around and sign/width boundaries
 int_harness!(atomic_i16_compare_exchange, AtomicI16, std::sync::atomic::AtomicI16, i16, 9);
 //@H atomic_usize_fetch_min @prop C12 @tier thorough @mode fast @cost 3 @timeout 3600 @funcs AtomicUsize::new,AtomicUsize::fetch_min,AtomicUsize::unsync_load,Atomic::rmw,Atomic::try_rmw,rt::Atomic::rmw,Numeric::into_u64,Numeric::from_u64 @bounds one operation after new; every usize initial value and operand (full width); every valid ordering :: AtomicUsize::fetch_min returns what std's returns (including the Ok/Err shape) and leaves std's content, for all operand values including wrap-around and sign/width boundaries
 int_harness!(atomic_usize_fetch_min, AtomicUsize, std::sync::atomic::AtomicUsize, usize, 3);
